@@ -456,7 +456,21 @@ pub fn check_graph_info(spec: &Spec, yaml: bool, st: &mut Stats) {
         let itr: Vec<usize> = gi.iter_rev().map(|v| (v.0 - 1) / 7).collect();
         let rt = if yaml {
             let y = serde_yaml_ng::to_string(&gi).map_err(|e| format!("serialise: {e}"));
-            Some(y.and_then(|y| serde_yaml_ng::from_str::<GraphInfo<(usize, Vec<u8>)>>(&y).map(|b| (b == gi, y.len())).map_err(|e| format!("deserialise: {e}"))))
+            Some(y.and_then(|y| {
+                serde_yaml_ng::from_str::<GraphInfo<(usize, Vec<u8>)>>(&y)
+                    .map(|b| {
+                        // the value read back must be equal AND behave like the original:
+                        // same nodes, edges and iteration
+                        let b_nodes: Vec<(usize, Vec<u8>)> = b.iter_insertion_with_indices().map(|(_, v)| v.clone()).collect();
+                        let b_edges: Vec<(usize, usize, Edge)> = b.graph.raw_edges().iter().map(|e| (e.source().index(), e.target().index(), e.weight)).collect();
+                        let b_it: Vec<usize> = b.iter().map(|v| (v.0 - 1) / 7).collect();
+                        let b_itr: Vec<usize> = b.iter_rev().map(|v| (v.0 - 1) / 7).collect();
+                        let y2 = serde_yaml_ng::to_string(&b).unwrap_or_default();
+                        let same = b_nodes == nodes && eh(&b_edges) == eh(&edges) && b_it == it && b_itr == itr && y2 == y;
+                        (b == gi && gi == b, same)
+                    })
+                    .map_err(|e| format!("deserialise: {e}"))
+            }))
         } else {
             None
         };
@@ -507,10 +521,13 @@ pub fn check_graph_info(spec: &Spec, yaml: bool, st: &mut Stats) {
         }
     }
     match rt {
-        Some(Ok((eq, _len))) => {
+        Some(Ok((eq, same))) => {
             st.count("yaml_round_trips", 1);
             if !eq {
                 bviol(st, 17, spec, what, "serialise + deserialise gives a GraphInfo that is not equal".into());
+            }
+            if !same {
+                bviol(st, 17, spec, what, "the GraphInfo read back differs from the original in its nodes, edges, iter()/iter_rev() order or re-serialised text".into());
             }
         }
         Some(Err(m)) => bviol(st, 17, spec, what, format!("YAML round trip failed: {m}")),
